@@ -15,7 +15,7 @@ RULE = ("one case = one run with a callback recording every iterate; families co
         "that ended without satisfying its conditions (returned None or used its whole evaluation cap); distinct = distinct specs")
 ASSUMPTIONS = ["harness objective closures are pure, so re-evaluation reproduces the values the solver saw",
                "runs whose start value is not finite are skipped and counted"]
-FAMS = gen.ALL_FAMILIES + ("exp_wall", "badly_scaled", "rosenbrock", "oscillating")
+FAMS = gen.ALL_FAMILIES + ("exp_wall", "badly_scaled", "rosenbrock", "oscillating", "quantized", "quantized")
 
 
 def floors(tier):
